@@ -2,6 +2,7 @@ package main
 
 import (
 	"fmt"
+	"go/token"
 	"go/types"
 	"strings"
 
@@ -99,11 +100,17 @@ func sigResults(sig *types.Signature) []types.Type {
 }
 
 func (r *FnRun) freshResults(st *State, sig *types.Signature, hint string) []Val {
+	// the callee may have allocated: the top grows first, so that the range
+	// facts of the result values ("refers to something that exists") are
+	// stated against the new top and a result may be a new object
+	r.bumpTop(st, nil)
 	var out []Val
 	for i, t := range sigResults(sig) {
 		out = append(out, r.freshVal(st, t, fmt.Sprintf("%s_r%d", hint, i)))
 	}
-	r.bumpTop(st, out)
+	for _, v := range out {
+		r.boundedBy(st.top, v)
+	}
 	return out
 }
 
@@ -205,7 +212,7 @@ func (r *FnRun) execCall(fr *Frame, st *State, c *ssa.CallCommon, instr ssa.Inst
 			// with contents tracked, the two outcomes of append (in place /
 			// reallocated) are explored as two paths
 			args := r.args(fr, st, c)
-			if s, ok := args[0].(SliceVal); ok {
+			if s, ok := args[0].(SliceVal); ok && r.contentsFor(s.Elem) {
 				st2, fr2 := st.clone(), fr.fork()
 				r.push()
 				r.cur = st
@@ -255,6 +262,37 @@ func (r *FnRun) execCall(fr *Frame, st *State, c *ssa.CallCommon, instr ssa.Inst
 				res := r.callByContract(fr, st, ct, names, append([]Val{fv}, r.args(fr, st, c)...), sig, where, n.Obj().Name())
 				k(fr, st, res)
 				return
+			}
+		}
+		// contract on a function-typed parameter of unnamed type:
+		// "opt funcparam <param>=<Name>" in the caller's contract selects
+		// the block "iface <Name>.call"
+		if fr.c != nil {
+			for _, pr := range strings.Fields(fr.c.Opts["funcparam"]) {
+				kv := strings.SplitN(pr, "=", 2)
+				vname := c.Value.Name()
+				if u, ok := c.Value.(*ssa.UnOp); ok && u.Op == token.MUL {
+					// naive-form SSA: the parameter is read back from its cell
+					if a, ok := u.X.(*ssa.Alloc); ok {
+						vname = a.Comment
+					}
+				}
+				if len(kv) == 2 && kv[0] == vname {
+					if ct, ok := r.e.cs.ByKey[fnPkgPath(fr.fn)+"::"+kv[1]+".call"]; ok {
+						names := []string{"self"}
+						for i := 0; i < sig.Params().Len(); i++ {
+							nm := sig.Params().At(i).Name()
+							if nm == "" || nm == "_" {
+								nm = fmt.Sprintf("a%d", i)
+							}
+							names = append(names, nm)
+						}
+						res := r.callByContract(fr, st, ct, names, append([]Val{fv}, r.args(fr, st, c)...), sig, where, kv[1])
+						k(fr, st, res)
+						return
+					}
+					sfail("%s: opt funcparam names unknown contract %q", relName(fr.fn), kv[1])
+				}
 			}
 		}
 		r.unknownCall(fr, st, "function value of type "+typeKey(c.Value.Type()), true, r.args(fr, st, c), sig, where, k)
@@ -345,9 +383,20 @@ func (r *FnRun) callStatic(fr *Frame, st *State, fn *ssa.Function, args []Val, b
 		for _, p := range fn.Params {
 			names = append(names, p.Name())
 		}
+		if len(fn.Params) == 0 && fn.Signature.Recv() == nil {
+			// a function of a package whose bodies were not built
+			for i := 0; i < fn.Signature.Params().Len(); i++ {
+				if n := fn.Signature.Params().At(i).Name(); n != "" && n != "_" {
+					names = append(names, n)
+				} else {
+					names = append(names, fmt.Sprintf("a%d", i))
+				}
+			}
+		}
 		for i := len(names); i < len(args); i++ {
 			names = append(names, fmt.Sprintf("a%d", i))
 		}
+		r.curCallee = fn
 		res := r.callByContract(fr, st, ct, names, args, fn.Signature, where, relName(fn))
 		k(fr, st, res)
 		return
@@ -372,11 +421,7 @@ func (r *FnRun) callStatic(fr *Frame, st *State, fn *ssa.Function, args []Val, b
 				r.note("call to %s without contract: havoc of inferred frame %v", relName(fn), keys)
 			}
 			for _, kp := range keys {
-				for _, hk := range r.heapKeysWithPrefix(st, kp) {
-					r.havocKey(st, hk)
-				}
-				st.hv[kp] = true
-				r.hvPrefix(st, kp)
+				r.havocInferred(st, kp)
 			}
 		}
 		r.havocEscaped(st)
@@ -389,6 +434,69 @@ func (r *FnRun) callStatic(fr *Frame, st *State, fn *ssa.Function, args []Val, b
 		return
 	}
 	r.unknownCall(fr, st, fn.String(), false, args, sig, where, k)
+}
+
+// havocInferred forgets one key prefix of an inferred frame ("Root|path").
+// A struct that is embedded by value in other structs lives under the keys of
+// its parents, so the same fields are forgotten there as well.
+func (r *FnRun) havocInferred(st *State, kp string) {
+	apply := func(k string) {
+		for _, hk := range r.heapKeysWithPrefix(st, k) {
+			r.havocKey(st, hk)
+		}
+		st.hv[k] = true
+		r.hvPrefix(st, k)
+	}
+	apply(kp)
+	i := strings.Index(kp, "|")
+	if i < 0 || strings.HasPrefix(kp, "[]") || strings.HasPrefix(kp, "map:") || strings.HasPrefix(kp, "*") {
+		return
+	}
+	root, path := kp[:i], kp[i+1:]
+	for _, site := range r.e.embedSites(root) {
+		apply(site.root + "|" + joinPath(site.path, path))
+		apply("[]" + site.root + "|" + joinPath(site.path, path))
+	}
+}
+
+// havocImplementors forgets the fields of every object that an interface value
+// of type it may refer to: all heap keys except those rooted at a named struct
+// type T for which neither T nor *T implements it. Keys that have not been
+// mentioned yet start fresh (as after havocAll).
+func (r *FnRun) havocImplementors(st *State, it *types.Interface) {
+	keep := map[string]Term{}
+	for k, t := range st.heap {
+		i := strings.Index(k, "|")
+		if i <= 0 {
+			continue
+		}
+		root := k[:i]
+		if strings.HasPrefix(root, "[]") || strings.HasPrefix(root, "map:") || strings.HasPrefix(root, "*") {
+			continue
+		}
+		nt := r.e.namedType(root)
+		if nt == nil {
+			continue
+		}
+		if types.Implements(nt, it) || types.Implements(types.NewPointer(nt), it) {
+			continue
+		}
+		// also objects that embed such a struct by value could be reached
+		// through a pointer to the embedded part: be conservative there
+		reach := false
+		for _, site := range r.e.embedSites(root) {
+			_ = site
+			reach = true
+		}
+		if reach {
+			continue
+		}
+		keep[k] = t
+	}
+	r.havocAll(st)
+	for k, t := range keep {
+		st.heap[k] = t
+	}
 }
 
 // hvPrefix remembers that every key below prefix must start fresh.
@@ -443,8 +551,24 @@ func (r *FnRun) callByContract(fr *Frame, st *State, ct *Contract, names []strin
 			r.ghostAssign(st, gs, genv)
 		}
 	}
+	if fr.c != nil && fr.old != nil {
+		for _, gs := range fr.c.AtCall[what] {
+			genv := r.invEnv(fr, st)
+			genv.what = "atcall " + gs.Src
+			r.ghostAssign(st, gs, genv)
+		}
+	}
 	pre := st.clone()
+	preCtx := st.ctx
 	env := &specEnv{st: st, old: pre, vars: vars, pkg: ct.Pkg, what: ct.Name, oldTop: st.top}
+	if n := sig.Params().Len(); n > 0 {
+		// names may start with "self"; parameters are the last n of them
+		env.ptypes = map[string]types.Type{}
+		off := len(names) - n
+		for i := 0; i < n && off >= 0; i++ {
+			env.ptypes[names[off+i]] = sig.Params().At(i).Type()
+		}
+	}
 	for _, cl := range ct.Requires {
 		env.what = ct.Name + " requires " + cl.Label
 		r.obligeClause("PRE", fmt.Sprintf("%s@%s:%s", what, where, cl.Label), cl.E, env, st)
@@ -467,9 +591,27 @@ func (r *FnRun) callByContract(fr *Frame, st *State, ct *Contract, names []strin
 	for _, m := range ct.Modifies {
 		r.havocTarget(st, m.E, env)
 	}
-	if !ct.HasMod && ct.Kind == "func" && !ct.Trusted {
-		// a verified function without modifies clause: use the inferred frame
-		r.note("%s has no modifies clause; caller assumes it changes nothing but what its ensures mention", ct.Name)
+	callee := r.curCallee
+	r.curCallee = nil
+	if !ct.HasMod && !ct.ModAll {
+		// no modifies clause: a function of the repository changes what the
+		// scan of its body (and of its callees) says it may change; anything
+		// else may change the whole heap
+		if callee != nil && len(callee.Blocks) > 0 && inRepo(fnPkgPath(callee)) {
+			ms := r.e.modInfer(callee)
+			if ms.all {
+				r.havocAll(st)
+			} else {
+				for _, kp := range ms.sortedKeys() {
+					r.havocInferred(st, kp)
+				}
+			}
+			r.note("%s has no modifies clause: inferred frame used at call sites", ct.Name)
+		} else if ct.Kind != "func" {
+			// an assumed (interface / external) contract states everything its
+			// callers may rely on; no frame clause means "modifies nothing"
+			r.note("%s %s has no modifies clause: assumed to change nothing its callers can see", ct.Kind, ct.Name)
+		}
 	}
 	r.havocEscaped(st)
 	res := r.freshResults(st, sig, sanitize(what))
@@ -524,7 +666,7 @@ func (r *FnRun) callByContract(fr *Frame, st *State, ct *Contract, names []strin
 			// when the callee is verified but tells its callers nothing
 			defer func() {
 				if x := recover(); x != nil {
-					if sf, ok := x.(specFail); ok && strings.Contains(sf.msg, "unknown identifier") {
+					if sf, ok := x.(specFail); ok && strings.Contains(sf.msg, "unknown identifier") && ct.Kind == "func" {
 						r.note("%s ensures %s speaks about callee locals; not used at call sites", shortName(ct.Name), cl.Label)
 						return
 					}
@@ -537,6 +679,9 @@ func (r *FnRun) callByContract(fr *Frame, st *State, ct *Contract, names []strin
 	r.linearResults(st, res, sigResults(sig), where, what)
 	if ct.Trusted || ct.Kind != "func" {
 		r.note("assumed contract: %s %s", ct.Kind, ct.Name)
+	}
+	if r.e.covers && len(ct.Ensures) > 0 {
+		r.coverAfterCall(what+"@"+where, st, preCtx)
 	}
 	return res
 }
@@ -567,6 +712,13 @@ func (r *FnRun) havocTarget(st *State, e SExpr, env *specEnv) {
 					return
 				}
 				if iv.Inner == nil {
+					if id, ok := x.Args[0].(SIdent); ok && env.ptypes != nil {
+						if it, ok := under(env.ptypes[id.Name]).(*types.Interface); ok && it.NumMethods() > 0 {
+							r.note("modifies fields(%s) with unknown dynamic type: every object whose type implements %s is havocked", id.Name, typeKey(env.ptypes[id.Name]))
+							r.havocImplementors(st, it)
+							return
+						}
+					}
 					r.note("modifies fields(x) with unknown dynamic type: whole heap havocked")
 					r.havocAll(st)
 					return
@@ -726,10 +878,7 @@ func (r *FnRun) havocLoop(fr *Frame, st *State, l *loopT) {
 		}
 	} else {
 		for _, kp := range ms.sortedKeys() {
-			for _, hk := range r.heapKeysWithPrefix(st, kp) {
-				r.havocKey(st, hk)
-			}
-			r.hvPrefix(st, kp)
+			r.havocInferred(st, kp)
 		}
 		for g := range ms.ghosts {
 			if gd, ok := r.e.cs.Ghosts[g]; ok {
@@ -738,6 +887,10 @@ func (r *FnRun) havocLoop(fr *Frame, st *State, l *loopT) {
 			}
 		}
 	}
+	// earlier iterations may have allocated
+	nt := r.fresh("top", SInt)
+	r.assume(Ge(nt, st.top))
+	st.top = nt
 	// local cells assigned in the loop
 	for v, val := range fr.vals {
 		a, ok := v.(*ssa.Alloc)
@@ -748,6 +901,7 @@ func (r *FnRun) havocLoop(fr *Frame, st *State, l *loopT) {
 			switch p.Kind {
 			case pkCell:
 				st.cells[p.Cell] = r.freshVal(st, p.Cell.typ, "lp_"+p.Cell.name)
+				r.boundedBy(st.top, st.cells[p.Cell]) // whatever it refers to exists
 			case pkHeap:
 				// a local that lives on the heap (its address escapes): forget its fields
 				r.havocArgs(st, []Val{p})
@@ -759,11 +913,6 @@ func (r *FnRun) havocLoop(fr *Frame, st *State, l *loopT) {
 		}
 	}
 	r.havocEscaped(st)
-	if ms.calls {
-		nt := r.fresh("top", SInt)
-		r.assume(Ge(nt, st.top))
-		st.top = nt
-	}
 	// linear bookkeeping cannot be carried through a loop cut; see linear.go
 	r.linearLoopCut(st)
 }
